@@ -173,13 +173,15 @@ class Net:
             self.op(lk.a, f"C {lk.rsid} {core.esc(line.encode())}")
             self.op(lk.a, "PUMP")
 
-    def quiesce(self, rng=None, budget=400):
-        """deliver until nothing is in flight; returns the number of deliveries (None = budget exhausted)"""
+    def quiesce(self, rng=None, budget=400, max_line=None):
+        """deliver until nothing is in flight; returns the number of deliveries (None = budget exhausted, or — with max_line — a line in
+        flight has grown beyond max_line bytes: an exchange whose messages grow every round is stopped before it eats the machine)"""
         n = 0
         while True:
             ps = self.pending()
             if not ps: return n
             if n >= budget: return None
+            if max_line is not None and any(len(x) > max_line for lk in self.links for q in (lk.fwd, lk.back) for x in q if isinstance(x, (str, bytes))): return None
             kind, k = ps[rng.below(len(ps))] if rng is not None else ps[0]
             self.deliver(kind, k); n += 1
 
